@@ -57,6 +57,7 @@ class Case:
         self.value_compare = set(value_compare)
         self.smooth = set(smooth)
         self.note = note
+        self.alias = {}  # argument name -> name of the argument it IS (same array object): in-place use, e.g. sum_field is field_1
 
 
 class Variant:
@@ -101,6 +102,35 @@ def _mk_sum(lead):
         kw = dict(sum_field=A.out(s), field_1=A.inp(s), field_2=A.inp(s))
         return Case(K, kw, dict(sum_field="out", field_1="in", field_2="in"),
                     lambda i: {"sum_field": (i["field_1"] + i["field_2"], m_full(s))}, smooth=("field_1", "field_2"))
+    return make
+
+
+def _mk_sum_inplace(lead, which):
+    """the documented in-place use (every time-step kernel calls it so): sum_field IS field_1 (or field_2)"""
+    other = "field_2" if which == "field_1" else "field_1"
+
+    def make(K, A, shape, real_t, rng):
+        s = lead(len(shape)) + shape
+        x = A.inout(s)
+        kw = {"sum_field": x, which: x, other: A.inp(s)}
+        c = Case(K, kw, {"sum_field": "inout", other: "in"}, lambda i: {"sum_field": (i["sum_field"] + i[other], m_full(s))}, smooth=("sum_field", other))
+        c.alias = {which: "sum_field"}
+        return c
+    return make
+
+
+def _mk_saxpby_inplace(lead, which):
+    other = "field_2" if which == "field_1" else "field_1"
+
+    def make(K, A, shape, real_t, rng):
+        s = lead(len(shape)) + shape
+        a, b = real_t(rng.standard_normal()), real_t(rng.standard_normal())
+        x = A.inout(s)
+        kw = {"sum_field": x, which: x, other: A.inp(s), f"{which}_prefac": a, f"{other}_prefac": b}
+        c = Case(K, kw, {"sum_field": "inout", other: "in"}, lambda i: {"sum_field": (float(a) * i["sum_field"] + float(b) * i[other], m_full(s))},
+                 smooth=("sum_field", other))
+        c.alias = {which: "sum_field"}
+        return c
     return make
 
 
@@ -205,6 +235,10 @@ for d in (2, 3):
     _reg(f"elementwise_sum_{d}d_vector", f"gen_elementwise_sum_pyst_kernel_{d}d", d, _mk_sum(_vec), {"field_type": "vector"}, min_side=1)
     _reg(f"elementwise_saxpby_{d}d_scalar", f"gen_elementwise_saxpby_pyst_kernel_{d}d", d, _mk_saxpby(lambda n: ()), {"field_type": "scalar"}, min_side=1)
     _reg(f"elementwise_saxpby_{d}d_vector", f"gen_elementwise_saxpby_pyst_kernel_{d}d", d, _mk_saxpby(_vec), {"field_type": "vector"}, min_side=1)
+    _reg(f"elementwise_sum_{d}d_scalar_inplace1", f"gen_elementwise_sum_pyst_kernel_{d}d", d, _mk_sum_inplace(lambda n: (), "field_1"), {"field_type": "scalar"}, min_side=1)
+    _reg(f"elementwise_sum_{d}d_vector_inplace2", f"gen_elementwise_sum_pyst_kernel_{d}d", d, _mk_sum_inplace(_vec, "field_2"), {"field_type": "vector"}, min_side=1)
+    _reg(f"elementwise_saxpby_{d}d_scalar_inplace2", f"gen_elementwise_saxpby_pyst_kernel_{d}d", d, _mk_saxpby_inplace(lambda n: (), "field_2"), {"field_type": "scalar"}, min_side=1)
+    _reg(f"elementwise_saxpby_{d}d_vector_inplace1", f"gen_elementwise_saxpby_pyst_kernel_{d}d", d, _mk_saxpby_inplace(_vec, "field_1"), {"field_type": "vector"}, min_side=1)
     _reg(f"set_fixed_val_{d}d_scalar", f"gen_set_fixed_val_pyst_kernel_{d}d", d, _mk_set(False), {"field_type": "scalar"}, min_side=1)
     _reg(f"set_fixed_val_{d}d_vector", f"gen_set_fixed_val_pyst_kernel_{d}d", d, _mk_set(True), {"field_type": "vector"}, min_side=1)
     _reg(f"elementwise_copy_{d}d", f"gen_elementwise_copy_pyst_kernel_{d}d", d, _mk_copy, min_side=1)
